@@ -132,7 +132,8 @@ def run(chk, replay=None):
             chk.case(ln + str(rel), sample={"entry": kind, "text": parse_sx(ln)[-1][:160], "outcome": x[:40]})
             chk.count("%s.%s.%s" % ("release" if rel else "debug", kind, x.split(" ")[0][:5]))
             if x not in ("ok", "err"):
-                chk.violation({"class": "entry-point-panic", "what": "%s: %s || %s" % (kind, x[:160], parse_sx(ln)[-1][:200])},
+                cls = "entry-point-abort" if x.startswith("CRASH") and "memory allocation" in x else "entry-point-panic"
+                chk.violation({"class": cls, "what": "%s: %s || %s" % (kind, x[:160], parse_sx(ln)[-1][:400])},
                               {"cmd": "total", "line": ln, "implementation": x, "release_build": rel,
                                "broken": "a text entry point panicked / aborted instead of returning Ok or Err"})
     # ---- declared sizes / bounds far beyond what can be laid out: must be Err, not an abort (run one per process, memory-limited)
